@@ -184,3 +184,32 @@ mutant("c01-capital-x-lost", ["C01"], (R, "alt((literal(\"x\"), literal(\"X\"), 
 mutant("c01-hyphen-single-blank", ["C01"], (R, "        let _ = space1(input)?;\n        let _ = literal(\"-\").parse_next(input)?;\n        let _ = space1(input)?;", "        let _ = literal(\" \").parse_next(input)?;\n        let _ = literal(\"-\").parse_next(input)?;\n        let _ = literal(\" \").parse_next(input)?;"))
 mutant("c01-caret-no-blank", ["C01"], (R, "        preceded((literal(\"^\"), space0), partial_version),", "        preceded(literal(\"^\"), partial_version),"))
 mutant("c01-peek-drops-bar", ["C01"], (R, "        terminated(primitive, peek(alt((space1, literal(\"||\"), eof)))),", "        terminated(primitive, peek(alt((space1, eof)))),"))
+
+# ---- more behaviour-preserving rewrites (must stay silent)
+neutral("gate-helper-fn", ["C03", "C01", "C11"],
+        (R, "            if let Some(lower_version) = lower_version {\n                if lower_version.is_prerelease()\n                    && version.major == lower_version.major\n                    && version.minor == lower_version.minor\n                    && version.patch == lower_version.patch\n                {\n                    return true;\n                }\n            }",
+            "            fn same_tuple(a: &Version, b: &Version) -> bool {\n                (a.major, a.minor, a.patch) == (b.major, b.minor, b.patch)\n            }\n            if let Some(lower_version) = lower_version {\n                if lower_version.is_prerelease() && same_tuple(version, lower_version) {\n                    return true;\n                }\n            }"))
+neutral("new-without-special-arms", ["C07", "C08", "C13"],
+        (R, "            (Lower(Including(v1)), Upper(Including(v2))) if v1 == v2 => Some(Self {\n                lower: Box::new(Lower(Including(v1))),\n                upper: Box::new(Upper(Including(v2))),\n            }),\n            (lower, upper) if lower < upper => Some(Self {",
+            "            (lower, upper)\n                if lower < upper\n                    || matches!((&lower, &upper), (Lower(Including(a)), Upper(Including(b))) if a == b) =>\n            {\n                Some(Self {"),
+        (R, "                lower: Box::new(lower),\n                upper: Box::new(upper),\n            }),\n            _ => None,", "                    lower: Box::new(lower),\n                    upper: Box::new(upper),\n                })\n            }\n            _ => None,"))
+neutral("diff-match-style", ["C16"],
+        (L, "        if self.major != other.major {\n            if high_has_pre {\n                return Some(VersionDiff::PreMajor);\n            }\n\n            return Some(VersionDiff::Major);\n        }",
+            "        if self.major != other.major {\n            return Some(match high_has_pre {\n                true => VersionDiff::PreMajor,\n                false => VersionDiff::Major,\n            });\n        }"))
+neutral("display-version-write-char", ["C12", "C18", "C13"],
+        (L, "            if i == 0 {\n                write!(f, \"-\")?;\n            } else {\n                write!(f, \".\")?;\n            }\n            write!(f, \"{}\", ident)?;\n        }\n\n        for (i, ident) in self.build",
+            "            f.write_str(if i == 0 { \"-\" } else { \".\" })?;\n            write!(f, \"{}\", ident)?;\n        }\n\n        for (i, ident) in self.build"))
+neutral("intersect-explicit-compare", ["C07", "C09", "C15"],
+        (R, "        let lower: &Bound = std::cmp::max(&self.lower, &other.lower);\n        let upper: &Bound = std::cmp::min(&self.upper, &other.upper);",
+            "        let lower: &Bound = if self.lower >= other.lower { &self.lower } else { &other.lower };\n        let upper: &Bound = if self.upper <= other.upper { &self.upper } else { &other.upper };"))
+neutral("range-intersect-iterators", ["C07", "C15"],
+        (R, "        let mut sets = Vec::new();\n\n        for lefty in &self.0 {\n            for righty in &other.0 {\n                if let Some(set) = lefty.intersect(righty) {\n                    sets.push(set)\n                }\n            }\n        }\n",
+            "        let sets: Vec<BoundSet> = self\n            .0\n            .iter()\n            .flat_map(|lefty| other.0.iter().filter_map(move |righty| lefty.intersect(righty)))\n            .collect();\n"))
+neutral("parse-entry-map-err", ["C17", "C05", "C06"],
+        (R, "        match range_set.parse_next(&mut input) {\n            Ok(range) => Ok(range),\n            Err(err) => Err(match err {", "        match range_set.parse_next(&mut input) {\n            Ok(range) => Ok(range),\n            Err(err) => Err(match err {"),
+        (L, "    pub fn is_prerelease(&self) -> bool {\n        !self.pre_release.is_empty()\n    }", "    pub fn is_prerelease(&self) -> bool {\n        self.pre_release.first().is_some()\n    }"))
+neutral("version-eq-tuple", ["C04", "C16", "C03"],
+        (L, "        self.major == other.major\n            && self.minor == other.minor\n            && self.patch == other.patch\n            && self.pre_release == other.pre_release",
+            "        (self.major, self.minor, self.patch) == (other.major, other.minor, other.patch)\n            && self.pre_release == other.pre_release"))
+neutral("min-version-match", ["C11", "C06"],
+        (R, "        candidates.into_iter().find(|v| self.satisfies(v))", "        for v in candidates {\n            if self.satisfies(&v) {\n                return Some(v);\n            }\n        }\n        None"))
